@@ -278,6 +278,13 @@ async fn run_case(c: &Case) -> CaseOut {
             Fault::SilentStall => {
                 answer(c.m);
                 conn.close(CloseHow::Stall);
+                if c.seed % 2 == 0 {
+                    // the rest of the cluster notices and says so: a STATUS_CHANGE DOWN event for this node
+                    // arrives on the control connection (the driver reacts with an immediate keep-alive)
+                    tokio::time::sleep(Duration::from_millis(20)).await;
+                    cluster.push_event(&crate::wire::response::Event::StatusChange { change: "DOWN".into(), addr: std::net::IpAddr::V4(cluster.node(0).ip), port: MAIN_PORT as i32 });
+                    log.push(Ev::Note("status-change-down-event-sent".into()));
+                }
             }
             Fault::NegativeStreamBenign => {
                 for s in [-2i16, -77, i16::MIN] {
@@ -440,6 +447,9 @@ fn judge(o: &mut Outcome, c: &Case, out: &CaseOut) {
     let key = fw::hash64(format!("{:?}:{}:{}:{}:{}:{}", c.fault, c.k, c.m, c.offset, c.prepared, c.idempotent).as_bytes());
     o.case(key, true);
     o.class(&format!("fault:{:?}", c.fault));
+    if c.fault == Fault::SilentStall && c.seed % 2 == 0 {
+        o.class("stall:with-status-change-down-event");
+    }
     o.class(&format!("inflight:{}", if c.k == 1 { "1" } else if c.k <= 10 { "2-10" } else { ">10" }));
     let fl = echo_frame_len();
     if matches!(c.fault, Fault::CutFin | Fault::CutRst) {
@@ -584,7 +594,7 @@ fn cases(ctx: &Ctx, rng: &mut Rng) -> Vec<Case> {
             let m = rng.usize(0, k.min(5));
             push(fault, k, m, 0, rng);
         }
-        if i < (if quick { 2 } else { 12 }) {
+        if i < (if quick { 4 } else { 16 }) {
             for fault in [Fault::SilentStall, Fault::HugeLengthThenStall] {
                 let k = *rng.pick(&[1usize, 7, 40]);
                 let m = rng.usize(0, k.min(3));
@@ -681,6 +691,7 @@ pub fn run(ctx: &Ctx) -> Outcome {
         "fault:RstDuringWrites",
         "fault:IdleFin",
         "fault:IdlePartialHeaderFin",
+        "stall:with-status-change-down-event",
         "inflight:PREPARE",
         "inflight:USE",
         "recovered",
